@@ -359,13 +359,16 @@ impl Accept {
         let next = self.next();
         #[cfg(actix_net_verif)]
         crate::verif::note_dispatch(next.idx(), &conn);
+        // Increment counter of WorkerHandle before the connection is handed over: the worker
+        // consults the counter when it is told to stop, and a connection it is already serving
+        // must not be missing from it. (If the send fails the handle is removed, counter and all.)
+        let available = next.inc_counter();
         match next.send(conn) {
             Ok(_) => {
                 #[cfg(actix_net_verif)]
                 crate::verif::point(crate::verif::Point::AfterSend(next.idx()));
-                // Increment counter of WorkerHandle.
                 // Set worker to unavailable with it hit max (Return false).
-                if !next.inc_counter() {
+                if !available {
                     let idx = next.idx();
                     self.avail.set_available(idx, false);
                 }
